@@ -21,20 +21,41 @@ structure LineChildren where
   descendantCount : Nat
   deriving Repr, Inhabited
 
-/-- what the search reads of a live token: its type and its text (never its counters, its leading whitespace or
-    its ignored flag) -/
+/-- `str::lines()` on the bytes of a text: split after every `\n`; a line loses its `\n` and then one `\r` -/
+def strLinesGo (cur : Bytes) : Bytes → List Bytes
+  | [] => if cur.isEmpty then [] else [cur.reverse]
+  | 0x0A :: r =>
+    let line := match cur with
+      | 0x0D :: c => c
+      | c => c
+    line.reverse :: strLinesGo [] r
+  | b :: r => strLinesGo (b :: cur) r
+
+def strLines (s : Bytes) : List Bytes := strLinesGo [] s
+
+/-- what the search reads of a live token: its type and, for a token that spans lines (a multi-line literal or
+    block comment), the length of its last line (never its counters, its leading whitespace, its ignored flag, or
+    any other part of its text) -/
 structure SVTok where
   kind : Kind
-  content : Bytes
+  lastLine : Option Nat
   deriving Repr, DecidableEq
 
-def FTok.sview (t : FTok) : SVTok := { kind := t.tok.kind, content := t.tok.content }
+/-- in `get_token_line_length`: "multiline tokens necessarily have a break in them": `content.lines().skip(1).last()` -/
+def lastLineLen (kind : Kind) (content : Bytes) : Option Nat :=
+  match kind with
+  | .tTextLiteral .tMultiLine | .tComment .cMultilineBlock =>
+    match ((strLines content).drop 1).getLast? with
+    | some lastLine => some lastLine.length
+    | none => none
+  | _ => none
+
+def FTok.sview (t : FTok) : SVTok := { kind := t.tok.kind, lastLine := lastLineLen t.tok.kind t.tok.content }
 
 /-- `InternalOptimisingLineFormatter` without the `child_line_cache` (which is threaded through the search as a state):
     `settings` and `recon_settings` come from `cfg`; `formattedTokens` is the live token state -/
 structure Olf where
-  cfg : Config
-  reconSettings : Settings
+  cfg : SearchCfg
   iterationMax : Nat
   formattedTokens : Array SVTok
   lines : Array LineA
